@@ -59,7 +59,7 @@ for d in sorted(glob.glob('seeded/*/')):
     if os.path.exists(hp) and res:
         hist = [h for h in open(hp).read().split() if h]
         if hist:
-            res += ' (earlier runs: ' + ', '.join(hist) + '; the check was strengthened, see 0.5)'
+            res += ' (earlier runs: ' + ', '.join(hist) + ('; the check was strengthened, see 0.5)' if 'missed' in hist else '; point oracles added since)')
     def cell(x):
         return str(x).replace('|', '/').replace('\n', ' ')[:200]
     out.append('| %s | %s | %s | %s |' % (sid, cell(meta.get('summary', '')), cell(meta.get('needs', '')), res))
@@ -68,8 +68,8 @@ cnt = collections.Counter()
 for l in out:
     if l.startswith('| C') and '| caught' in l:
         cnt['caught with a failing input' if 'with replay' in l else 'caught, no failing input found'] += 1
-        if 'earlier runs' in l:
-            cnt['of which escaped an earlier version of the check'] += 1
+        if re.search(r'earlier runs: [^;]*missed', l):
+            cnt['of which escaped (verdict OK) an earlier version of the check'] += 1
     elif l.startswith('| C') and 'MISSED' in l:
         cnt['missed'] += 1
 out.append('')
